@@ -23,6 +23,7 @@ import (
 func systemBody(p Pkg) explore.Body {
 	return func(ctx *explore.Ctx) (string, string) {
 		w := osw.NewWorld()
+		w.LongLived()
 		env := manifests.PackageEnvironment{Kubernetes: manifests.PackageEnvironmentKubernetes{Version: "v1.27.0"}}
 		w.Pkg = &world.PackageEnv{Images: map[string]map[string]string{"img": p.files()}, Env: env}
 		pk := &corev1alpha1.Package{ObjectMeta: metav1.ObjectMeta{Name: "inst", Namespace: world.NS}, Spec: corev1alpha1.PackageSpec{Image: "img"}}
@@ -54,6 +55,7 @@ func systemBody(p Pkg) explore.Body {
 		// force a re-render of the unchanged spec under an explorer-chosen map order
 		one := int32(1)
 		w.Pkg = &world.PackageEnv{Images: w.Pkg.Images, Env: env, HashModifier: &one}
+		w.Restart() // the hash modifier is a manager flag: changing it means a new operator process
 		vorder.Install(func(site string, n int) int {
 			return ctx.Choose(vorder.Alternatives(n), 1, fmt.Sprintf("%s n=%d", site, n))
 		})
